@@ -14,4 +14,10 @@ def files : List String := ["models/internal/properties.py", "models/internal/va
 
 theorem caches_views_pinned : (Generated.cachedDefs.filter fun d => files.any (fun f => d.1 == f || (f.endsWith "/" && d.1.startsWith f))) = [("models/custom.py", "Custom.values", "decorator:cached_custom_property"), ("models/internal/properties.py", "RepeatedNodeWrapper._separators", "decorator:cached_property"), ("models/internal/properties.py", "RepeatedNodeWrapper._separators_before", "decorator:cached_property"), ("models/internal/value_properties.py", "repeated_filtered_node_property", "base:cached_custom_property"), ("models/internal/value_properties.py", "repeated_string_property", "base:cached_custom_property"), ("models/meta_item_internal.py", "repeated_meta_item_property", "base:cached_custom_property"), ("models/meta_item_internal.py", "repeated_raw_meta_item_property", "base:cached_custom_property")] := by decide +kernel
 
+/-- Whole-field assignment (`model.raw_x = wrapper`): every descriptor that replaces a repeated field and the wrapper it
+remembers also forgets the model's cached views (they are bound to the replaced list) - the assumption under which the
+history op `assign` of the C10 correspondence re-initialises the model world (`V init`). -/
+theorem field_assignment_drops_views :
+    Generated.wrapperSetters.all (fun d => d.2.2 == "drops") = true ∧ 2 ≤ Generated.wrapperSetters.length := by decide +kernel
+
 end Autobean.Obligations.CachesViews
